@@ -72,6 +72,10 @@ func newWorldLine(x *World, widx int) map[string]interface{} {
 		c := x.comps[n]
 		comps = append(comps, map[string]interface{}{"id": n, "kind": c.kind, "rel": c.isRel, "sized": c.sized})
 	}
+	if x.h.Generic {
+		c := x.comps[lateComp] // declared, not yet registered (and never chosen at random: not in compNums)
+		comps = append(comps, map[string]interface{}{"id": lateComp, "kind": c.kind, "rel": c.isRel, "sized": c.sized})
+	}
 	h := x.h
 	line := map[string]interface{}{
 		"i": 0, "w": widx, "op": "NewWorld", "api": "",
